@@ -83,6 +83,21 @@ def drive_script(sc):
     as_row = lambda it: bool(sc.get("row")) and (sc["nested"] or it["kind"] == "f")  # noqa: E731
     script = [{"f": "f" in it["kind"], "g": "g" in it["kind"], "x": None if as_row(it) else xf(it["pt"], mask),
                "batch": [xf(it["pt"], mask)] if as_row(it) else None} for it in sc["script"]]
+    # a variable transform as an orthogonal switch (every second non-nested history): requests and start values are
+    # given in optimizer coordinates, everything that is judged (evaluator rows, reported user-domain results) is not
+    import zlib
+    transforms = None
+    start = X0
+    if not sc["nested"] and zlib.crc32(str(sc["script"]).encode()) % 2 == 1:
+        from ..transforms_util import make_transforms
+        s_, o_ = np.array([2.0, 0.5, 4.0]), np.array([1.0, -1.0, 2.0])
+        transforms = make_transforms(var_scales=s_, var_offsets=o_)
+        fm = np.array(mask, dtype=bool)
+        for item in script:
+            for key in ("x", "batch"):
+                if item.get(key) is not None:
+                    item[key] = ((np.array(item[key], dtype=np.float64) - o_[fm]) / s_[fm]).tolist()
+        start = ((np.array(X0) - o_) / s_).tolist()
     cfg = base_config(sc, "rvscript/script")
     cfg["optimizer"]["options"] = {"script": script}
     ctx = OptimizerContext(evaluator=rec.evaluator, plugin_manager=pm)
@@ -109,7 +124,9 @@ def drive_script(sc):
     per_request = []
     orig_cb = {}
 
-    _, outcome = outcome_of(lambda: plan.run_step(step, config=cfg, variables=X0, **kwargs))
+    if transforms is not None:
+        kwargs["transforms"] = transforms
+    _, outcome = outcome_of(lambda: plan.run_step(step, config=cfg, variables=start, **kwargs))
     rows, results = rec.take()
     trace = [{"ev": "Start", "x0": [int(v) for v in X0], "mask": mask, "outcome": outcome, "kind": "", "xf": [], "nested": [], "rows": [],
               "unpert": [], "resvars": [], "pertvars": [], "gradzero": [], "glen": -1,
